@@ -63,6 +63,49 @@ def c03Fragment : Handler := fun j => do
     ("outside", strs (bad.map (·.name))), ("nameds", Json.bool w.nameds.isEmpty),
     ("hasType", Json.arr vals.toArray)]
 
+/-- why a declaration is outside the fragment (reporting only) -/
+def declWhy (env : IR.Env) (w : Wrappers) (d : IR.Decl) : List String :=
+  match d.body with
+  | .named u =>
+    (if E2E.shapeOk u then [] else ["named:shape"]) ++ (if E2E.noUnion env u then [] else ["named:container-of-unions"]) ++
+    (match u with | .basic _ .int => [] | _ => if d.name != refName env u then [] else ["named:same-name-as-underlying"])
+  | .enum _ _ _ _ => []
+  | .struct fs _ _ =>
+    let ser := E2E.serialised fs
+    (if fs.isEmpty then ["struct:empty"] else []) ++
+    (if ser.all fun f => !(tagOptions f.tag).contains "omitempty" then [] else ["struct:omitempty"]) ++
+    (if ser.all fun f => !(tagOptions f.tag).contains "string" then [] else ["struct:string-option"]) ++
+    (if ser.all fun f => Tags.get f.tag "gomacro" != "ignore" then [] else ["struct:gomacro-ignore"]) ++
+    (if ser.all fun f => (Tags.namePart (Tags.get f.tag "json") == "" || Tags.isValidTag (Tags.namePart (Tags.get f.tag "json"))) then [] else ["struct:invalid-json-name"]) ++
+    (if ser.all fun f => E2E.shapeOk f.ty then [] else ["struct:field-shape"]) ++
+    (if ser.all fun f => (isUnionTy env f.ty || E2E.noUnion env f.ty) then [] else ["struct:union-under-anonymous-container"]) ++
+    (if (ser.map fun f => Tags.jsonName f.tag f.name).Nodup then [] else ["struct:duplicate-key"]) ++
+    (if (ser.map (·.name)).Nodup then [] else ["struct:duplicate-field-name"]) ++
+    (if (ser.any (fun f => isUnionTy env f.ty)) && !w.structs.contains d.q then ["struct:no-generated-wrapper"] else [])
+  | .union ms =>
+    (if ms.all fun m => E2E.noUnion env m && (match m with | .ref _ => true | _ => false) then [] else ["union:member-not-a-plain-named-type"]) ++
+    (if (ms.map (E2E.localNameOf env)).Nodup then [] else ["union:two-members-one-name"])
+
+/-- why a declaration is outside the larger fragment (reporting only) -/
+def declWhyN (env : IR.Env) (w : Wrappers) (d : IR.Decl) : List String :=
+  match d.body with
+  | .named u =>
+    if w.nameds.contains d.q then (if RoundTrip.declOkN env w d then [] else ["named:wrapped-but-not-a-slice-or-map-of-unions"])
+    else (if RoundTrip.shapeRT u then [] else ["named:shape"]) ++ (if E2E.noUnion env u then [] else ["named:container-of-unions-without-methods"])
+  | .enum _ _ _ _ => []
+  | .struct fs _ _ =>
+    let ser := E2E.serialised fs
+    (if ser.all fun f => !(tagOptions f.tag).contains "string" then [] else ["struct:string-option"]) ++
+    (if ser.all fun f => (Tags.namePart (Tags.get f.tag "json") == "" || Tags.isValidTag (Tags.namePart (Tags.get f.tag "json"))) then [] else ["struct:invalid-json-name"]) ++
+    (if ser.all fun f => RoundTrip.shapeRT f.ty then [] else ["struct:field-shape"]) ++
+    (if ser.all fun f => (isUnionTy env f.ty || E2E.noUnion env f.ty) then [] else ["struct:union-under-anonymous-container"]) ++
+    (if (ser.map fun f => Tags.jsonName f.tag f.name).Nodup then [] else ["struct:duplicate-key"]) ++
+    (if (ser.map (·.name)).Nodup then [] else ["struct:duplicate-field-name"]) ++
+    (if (ser.any (fun f => isUnionTy env f.ty)) && !w.structs.contains d.q then ["struct:no-generated-wrapper"] else [])
+  | .union ms =>
+    (if ms.all fun m => E2E.noUnion env m && (match m with | .ref _ => true | _ => false) then [] else ["union:member-not-a-plain-named-type"]) ++
+    (if (ms.map (E2E.localNameOf env)).Nodup then [] else ["union:two-members-one-name"])
+
 /-- op `c02.roundtrip`: is the program inside the fragment of the round-trip theorem
 (`Props/C02E2E.lean`), are the dumped values (without the fields encoding/json never writes)
 strictly typed, and the instance of the theorem evaluated: decode (encode v) = some v -/
@@ -80,10 +123,18 @@ def c02RoundTrip : Handler := fun j => do
     let typed := RoundTrip.wt env 64 t sv
     let back := RoundTrip.decode env w 64 false t (encode env w 64 false t sv)
     let same := match back with | some b => RoundTrip.goValBeq b sv | none => false
-    pure (Json.mkObj [("wt", Json.bool typed), ("same", Json.bool same), ("decoded", Json.bool back.isSome)])
+    let sameN := match back with | some b => RoundTrip.eqNil sv b | none => false
+    pure (Json.mkObj [("wt", Json.bool typed), ("same", Json.bool same), ("sameModNil", Json.bool sameN), ("decoded", Json.bool back.isSome)])
+  let badN := ds.filter fun d => !(RoundTrip.declOkN env w d)
   return Json.mkObj [("inFragment", Json.bool (RoundTrip.fragmentRTB env w ds)),
+    ("inFragmentN", Json.bool (RoundTrip.fragmentNB env w ds)),
+    ("outsideN", strs (badN.map (·.name))),
+    ("whyN", strs ((ds.flatMap (declWhyN env w)).eraseDups ++
+      (if ds.all (fun d => ((RoundTrip.rtChildTys d).flatMap Ty.refs).all fun q => ds.any fun d' => d'.q == q) then [] else ["not-closed"]))),
     ("reachableInFragment", Json.bool (RoundTrip.fragmentRTB env w reach)),
     ("outside", strs (bad.map (·.name))), ("nameds", Json.bool w.nameds.isEmpty),
+    ("why", strs ((ds.flatMap (declWhy env w)).eraseDups ++ (if w.nameds.isEmpty then [] else ["named-container-of-unions-wrapped"]) ++
+      (if ds.all (fun d => ((RoundTrip.rtChildTys d).flatMap Ty.refs).all fun q => ds.any fun d' => d'.q == q) then [] else ["not-closed"]))),
     ("values", Json.arr vals.toArray)]
 
 end Gomacro.Drv
